@@ -9,6 +9,8 @@ CONSTANTS
   HandlerSeqs <- RQ_HSeqs
   UpProgs <- RQ_UpProgs
   CRProg <- RQ_CR
+  Forms = {"fresh"}
+  Colls = {}
   QuitOn = FALSE
   QuitDeferred = FALSE
   DefCap = 1
